@@ -25,7 +25,7 @@ func init() {
 	Register(&Check{
 		ID:          "C14",
 		Technique:   "exhaustive deviation-bounded enumeration of (URL, Dialer settings, caller headers, scripted server reply) against the real Dialer over a scripted transport; the challenge key is traced to a recording random source; request judged by an independent line-level parser",
-		Rule:        "default = plain ws URL, no caller headers, correct 101 reply; every dimension (URL, caller header incl. protocol-owned names in 3 spellings, Subprotocols, EnableCompression, reply status / Upgrade / Connection / Accept variant / body length / garbage, a second dial with a stale Accept) deviates independently up to the bound. non-trivial = a request reached the transport and a non-default choice; distinct by observation hash",
+		Rule:        "default = plain ws URL, no caller headers, correct 101 reply; every dimension (URL, caller header incl. protocol-owned names in 3 spellings, Subprotocols, EnableCompression, reply status / Upgrade / Connection / Accept variant / body length / garbage / delivery in segments of 100 or 1 bytes, Dialer.ReadBufferSize 0 or 256, a second dial with a stale Accept) deviates independently up to the bound. non-trivial = a request reached the transport and a non-default choice; distinct by observation hash",
 		Assumptions: []string{"crypto/rand.Reader is replaced by a recording deterministic source for the duration of an execution", "duplicate Sec-WebSocket-Accept lines are a don't-care", "net/http's response parser is trusted"},
 		Serial:      false,
 		Budget:      map[string]time.Duration{"quick": 100 * time.Second, "thorough": 20 * time.Minute},
@@ -169,12 +169,23 @@ func c14Body(x *explore.Ctx, ui int) {
 	body := c14Bodies[x.Choose(len(c14Bodies), "reply-body")]
 	garbage := x.Choose(4, "reply-garbage") // 0 none, 1 not HTTP, 2 EOF before reply, 3 truncated head
 	twoDials := x.Choose(2, "second-dial-with-stale-accept") == 1
+	// how the reply reaches the client: in one piece, or in segments of 100 bytes / 1 byte; with the default or a
+	// small read buffer (the capture of the body must not depend on what happens to be buffered)
+	// (free dimension: enumerated completely, so that it combines with two deviations of the reply)
+	dv := x.Pick(4, "reply-delivery(whole|100-byte segments|1-byte segments|whole with ReadBufferSize 256)")
+	delivery, readBuf := dv%3, []int{0, 256}[dv/3]
 	key := func(what string) string { return "C14:" + what }
 
 	var prevKey string
 	dial := func(epoch int, stale bool) *c14Dial {
 		rec.Epoch = epoch
 		d := &c14Dial{nc: netsim.NewConn(nil)}
+		switch delivery {
+		case 1:
+			d.nc.Chunk = netsim.ChunkFixed(100)
+		case 2:
+			d.nc.Chunk = netsim.ChunkFixed(1)
+		}
 		d.nc.Extra = func(c *netsim.Conn) []byte {
 			if d.reply != nil {
 				return nil
@@ -260,7 +271,7 @@ func c14Body(x *explore.Ctx, ui int) {
 			}
 			return d.reply
 		}
-		dl := &websocket.Dialer{Subprotocols: subp, EnableCompression: enableComp,
+		dl := &websocket.Dialer{Subprotocols: subp, EnableCompression: enableComp, ReadBufferSize: readBuf,
 			NetDialContext: func(ctx context.Context, network, addr string) (net.Conn, error) {
 				d.hooks++
 				d.addr = addr
